@@ -148,7 +148,7 @@ def run_case(case, ctx):
         if case['as_list']:
             out = fd_derivative(np.asarray(args[0]), args[1], n=n, m=m)
         else:
-            out = fd_derivative(args[0], args[1], n=n, m=m)
+            out = fd_derivative(args[0], args[1], n, m) if case['seed'] % 4 == 2 else fd_derivative(args[0], args[1], n=n, m=m)
     except Exception as exc:
         ctx.reject('raised', observed=repr(exc))
         return
